@@ -221,7 +221,7 @@ func cloneRandCondText(r *rand.Rand, depth int) string {
 		case 8:
 			parts[i] = randExprText(r, depth+2, r.Intn(3))
 		case 9:
-			parts[i] = pick(r, []string{"f(v) > 1", "abs(v) < 3", "v > abs(a)", "now() > time"})
+			parts[i] = pick(r, []string{"f(v) > 1", "abs(v) < 3", "v > abs(a)", "now() > time", "verif_list = 'host,region,dc'", "verif_list = 'a'", "verif_list = 'x,y'"})
 		default:
 			parts[i] = pick(r, []string{"v", "a", "host"}) + " = " + pick(r, []string{"1", "'a'", "2.5"})
 		}
@@ -770,6 +770,31 @@ func runCloneHistory(args []string) (verdict, class, final string) {
 }
 
 // runCloneHistory1 returns the verdict ("" = all checks hold), a class label and the final texts.
+// injectLists: the parser builds a ListLiteral only in SHOW TAG VALUES ... WITH KEY IN (...); callers that
+// turn such a statement into a SELECT over the tag keys put it into a condition. The generator writes
+// `verif_list = 'a,b,c'` where a list is wanted and this replaces it by `_tagKey IN (a, b, c)` at every
+// depth (round-7 seeded change C14-1: CloneExpr copied the ListLiteral struct and with it the backing
+// array of its values).
+func injectLists(s *influxql.SelectStatement) (found bool) {
+	s.Condition = influxql.RewriteExpr(s.Condition, func(e influxql.Expr) influxql.Expr {
+		if b, ok := e.(*influxql.BinaryExpr); ok && b.Op == influxql.EQ {
+			l, ok1 := b.LHS.(*influxql.VarRef)
+			v, ok2 := b.RHS.(*influxql.StringLiteral)
+			if ok1 && ok2 && l.Val == "verif_list" {
+				found = true
+				return &influxql.BinaryExpr{Op: influxql.IN, LHS: &influxql.VarRef{Val: "_tagKey"}, RHS: &influxql.ListLiteral{Vals: strings.Split(v.Val, ",")}}
+			}
+		}
+		return e
+	})
+	for _, src := range s.Sources {
+		if sq, ok := src.(*influxql.SubQuery); ok && sq.Statement != nil && injectLists(sq.Statement) {
+			found = true
+		}
+	}
+	return found
+}
+
 func runCloneHistory1(args []string) (verdict, class, final string) {
 	if len(args) != 2 {
 		return "skip", "bad-case", ""
@@ -791,6 +816,9 @@ func runCloneHistory1(args []string) (verdict, class, final string) {
 		return "skip", "not-select", ""
 	}
 	class = "select"
+	if injectLists(orig) {
+		class += "+list"
+	}
 	if orig.Target != nil {
 		class += "+into"
 	}
